@@ -344,6 +344,7 @@ def modelled_members_and_casts():
  'fn main() { let a: ?int = ?3; let b: ?int = none; println(a.is_some(), a.is_none(), b.is_some(), b.is_none(), a.unwrap(), a.unwrap_or(9), b.unwrap_or(9), a.expect("no"), a.to_string(), b.to_string(), (?[1, 2]).to_string(), (??1).to_string()); try { println(b.unwrap()); } catch e { println(e.message, e.line, e.column); } println(b.expect("expected a value")); }',
  # --- any-objects: get / set / keys / get_type / to_string; missing keys; self containment
  'fn main() { let o = new { ? }; o.set("i", 1); o.set("f", 1.5); o.set("b", true); o.set("s", "x"); o.set("l", [1]); o.set("o", new { a: 1 }); o.set("d", new { ? }); o.set("n", ?1); o.set("r", 1..2); for k in o.keys() { println(k, o.get_type(k)); } println(o.to_string() == o.to_string(), o.get("i"), o.get("none")); println(o.get_type("missing")); }',
+ 'fn helper(x: int) -> int { x + 1 } fn main() { let o = new { ? }; o.set("u", helper); o.set("l", fn(x: int) -> int { x }); let nn: ?int = none; o.set("non", nn); o.set("lf", [helper]); o.set("of", new { f: helper }); for k in o.keys() { println(k, o.get_type(k)); } }',
  'fn main() { let o = new { ? }; let p = new { ? }; p.set("o", o); try { o.set("p", p); } catch e { println(e.message); } try { o.set("l", [?p]); } catch e { println(e.message); } try { o.set("me", o); } catch e { println(e.message, e.line, e.column); } o.set("ok", [p.keys()]); println(o, p); let t = new { inner: p }; try { o.set("t", t); } catch e { println("t", e.message); } println(o.keys()); }',
  'fn main() { let o = new { a: 1, b: 2 }; let k = "a"; let a: int = o[k]; let b: int = o["b"]; println(a, b); let d = new { ? }; d.set("x", 5); let x: int = d["x"]; println(x); k = "zz"; let z: int = d[k]; println(z); }',
  'fn main() { let o = new { a: 1, b: 2 }; let k = "c"; println(o.keys()); let c: int = o[k]; println(c); }',
